@@ -133,12 +133,12 @@ def des_part(chk, rng):
     # get_master_key from every round key
     recovered = []
     nm = 2 if q else 12
-    mk = [0] + list(range(67, 67 + nm - 1))
+    mk = [0, 1, 2] + list(range(67, 67 + nm - 1))            # known-answer key, all-zero key, all-one key (first / last candidate of the 256), random keys
     for ki in mk:
         key = np.array(keys[ki], dtype='uint8')
         pt = np.array([rng.randint(0, 255) for _ in range(8)], dtype='uint8')
         ct = scared.des.encrypt(pt, key)          # C06 ties encrypt to FIPS
-        for rnd in (range(16) if ki == 0 or not q else [0, 7, 15]):
+        for rnd in (range(16) if ki in (0, 2) or not q else [0, 7, 15]):
             got = scared.des.get_master_key(np.array(rk[ki][rnd], dtype='uint8'), rnd, pt, ct)
             if got is None:
                 chk.violation('get_master_key:returns a key from any single round key and one plaintext/ciphertext pair', {'property': 'C10', 'part': 'master', 'key': keys[ki], 'round': rnd}, f'get_master_key returned None (round {rnd})')
